@@ -355,6 +355,47 @@ pub fn tccr_hash_block(tweak: [u8; 16], x: [u8; 16]) -> [u8; 16] {
         .into()
 }
 
+/// Fixed-key correlation robust hash of a slice of blocks (in-place slice variant).
+pub fn cr_hash_slice(xs: &[[u8; 16]]) -> Vec<[u8; 16]> {
+    let mut v: Vec<Block> = xs.iter().map(|x| Block::from(*x)).collect();
+    FIXED_KEY_HASH.cr_hash_slice_mut(&mut v);
+    v.into_iter().map(|b| b.into()).collect()
+}
+
+/// Fixed-key tweakable hash of a slice of blocks, block `i` under `tweaks[i]` (slice variant).
+pub fn tccr_hash_slice(tweaks: &[[u8; 16]], xs: &[[u8; 16]]) -> Vec<[u8; 16]> {
+    let mut v: Vec<Block> = xs.iter().map(|x| Block::from(*x)).collect();
+    FIXED_KEY_HASH.tccr_hash_slice_mut(&mut v, |i| Block::from(tweaks[i]));
+    v.into_iter().map(|b| b.into()).collect()
+}
+
+/// One operation on an `AesRng`: `Fill(len)`, `U32`, `U64`.
+#[derive(Debug, Clone, Copy)]
+pub enum RngOp {
+    /// `fill_bytes` with a buffer of this length.
+    Fill(usize),
+    /// `next_u32`.
+    U32,
+    /// `next_u64`.
+    U64,
+}
+
+/// Output bytes of every operation of a sequence on one freshly seeded `AesRng`.
+pub fn aes_rng_ops(seed: [u8; 16], ops: &[RngOp]) -> Vec<Vec<u8>> {
+    let mut rng = AesRng::from_seed(Block::from(seed));
+    ops.iter()
+        .map(|op| match op {
+            RngOp::Fill(l) => {
+                let mut v = vec![0u8; *l];
+                rng.fill_bytes(&mut v);
+                v
+            }
+            RngOp::U32 => rng.next_u32().to_le_bytes().to_vec(),
+            RngOp::U64 => rng.next_u64().to_le_bytes().to_vec(),
+        })
+        .collect()
+}
+
 /// The fixed AES key of the hashes, as key bytes.
 pub fn fixed_key() -> [u8; 16] {
     193502124791825095790518994062991136444_u128.to_le_bytes()
